@@ -12,6 +12,8 @@ NEEDS = ["Heap", "Values", "ValuesProofs", "Corr"]
 
 # operator library: ONE OperatorTemplate object per name in a circuit (D26); every operator has exactly one state variable
 # and at most one input variable, and is affine in the input so that edge sums can be read off dy exactly
+# since fix D90 two OperatorTemplate objects may share a name and differ in their default values (the generator does that);
+# every operator still has exactly one state variable and at most one input variable
 OPLIB = {
     "op": dict(eq="d/dt * x = k*r + g + u", state="x", kind="output", consts=["k", "r", "g"], inp="u"),
     "oq": dict(eq="d/dt * z = a + v", state="z", kind="variable", consts=["a"], inp="v"),
@@ -237,6 +239,10 @@ def resolve(case, pat):
 def gen_case(rng, maxlen):
     depth = rng.choice([0, 0, 1, 1, 1, 2])
     opnames = ["op"] + rng.sample(["oq", "os"], rng.randint(0, 2))
+    if rng.random() < 0.3:
+        # a SECOND OperatorTemplate object of an existing name with other default values (possible since fix D90: the
+        # compiler's operator cache is keyed by the definition, no longer by the name)
+        opnames.append(rng.choice(opnames))
     ops = []
     for n in opnames:
         lib = OPLIB[n]
@@ -244,7 +250,10 @@ def gen_case(rng, maxlen):
         ops.append(dict(name=n, defs=defs, dictform=[k for k in lib["consts"] if rng.random() < 0.25]))
     nodes = []
     for _ in range(rng.randint(1, 3)):
-        chosen = [0] + [i for i in range(1, len(ops)) if rng.random() < 0.6]
+        byname = {}
+        for i, o in enumerate(ops):
+            byname.setdefault(o["name"], []).append(i)
+        chosen = [rng.choice(byname["op"])] + [rng.choice(ix) for nm, ix in byname.items() if nm != "op" and rng.random() < 0.6]
         rng.shuffle(chosen)
         nops = []
         for oi in chosen:
@@ -324,7 +333,7 @@ def gen_case(rng, maxlen):
             if need_all and (len(hit) != len(res) or not res):
                 continue
             n = len(res) if need_all else len(hit)
-            if n >= 1 and rng.random() < 0.07:
+            if n >= 1 and var != lib["state"] and rng.random() < 0.09:      # (a misfitting array as INITIAL VALUE makes a vector-valued state: not modelled)
                 m = rng.choice([k for k in (n - 1, n + 1, n + 2) if k >= 2])   # length differs from the number of addressed nodes
                 return pat, ops[oi]["name"], var, [dy8(rng) for _ in range(m)], n
             if n >= 1 and rng.random() < 0.4:
@@ -608,7 +617,7 @@ def check(ctx):
         if not isinstance(o, dict):
             kinds["raising"] += sum(1 for r in o if isinstance(r, dict) and "raised" in r)
     hist = dict(depth={d: sum(1 for c in cases if c["depth"] == d) for d in (0, 1, 2)}, operations=kinds,
-                shared_template_object=sum(1 for c in cases if shared_objects(c)), shared_subcircuit_object=sum(1 for c in cases if shared_subcircuit(c)),
+                shared_template_object=sum(1 for c in cases if shared_objects(c)), two_operators_one_name=sum(1 for c in cases if len({o['name'] for o in c['ops']}) < len(c['ops'])), shared_subcircuit_object=sum(1 for c in cases if shared_subcircuit(c)),
                 dictform_declarations=sum(1 for c in cases if any(o.get('dictform') for o in c['ops'])))
     write_evidence(ctx, evaluations=len(cases), distinct_nontrivial=len(nt),
                    rule="random histories (update_var with scalar and per-node array values, wildcard paths, constants and initial values; "
@@ -621,6 +630,6 @@ def check(ctx):
                    trusted_base=["float64 arithmetic of the generated affine right-hand sides is exact on the dyadic data (results compared as exact rationals)",
                                  "edge sums are read off the compiled vector field as dy(e_j) - dy(0)"],
                    assumptions=["patterns and node paths have depth+1 components (other lengths are not modelled)",
-                                "operator templates of one name have equal defaults (otherwise D26: the compiler's cache by operator name decides)",
+                                "operator templates of one name may differ in their default values (fix D90), their equations are those of the name",
                                 "no compile on the same template object before the history (otherwise the C14 state-carry finding applies to initial values)",
-                                "arrays of length 0 or 1 that do not fit the number of addressed nodes are not modelled; update_template(circuits=..) is not modelled"])
+                                "misfitting arrays are tied for constants only (as initial value of a state variable they make a vector-valued state: not modelled), and only with length >= 2; update_template(circuits=..) is not modelled"])
